@@ -123,7 +123,7 @@ def exBundle : Bundle :=
                   response := some [] } ] },
             .entity { name := b!"thing", baseUrl := [], keys := [], data := [], statuses := [b!"A"],
                       events := [.mk b!"Made" [] [] none], commands := [], summaries := [],
-                      query := none, nested := [] } ] ] } ] }
+                      query := none, nested := [] } ] b!"foo.v1" ] } ] }
 
 example : WfBundle exBundle := by unfold WfBundle; decide
 
